@@ -75,10 +75,13 @@ def goodOrders : List (List Field) :=
     [.rotoConstants, .jit, .registeredFns, .constants], [.registeredFns, .constants, .rotoConstants, .jit],
     [.registeredFns, .rotoConstants, .constants, .jit], [.registeredFns, .rotoConstants, .jit, .constants] ]
 
+/-- the fields whose drop does something the model tracks -/
+def coreFields (fs : List Field) : List Field := fs.filter (fun f => f != Field.plain)
+
 /-- what the theorems need from the implementation's declarations -/
 def goodB (F : Facts) : Bool :=
   F.handleHoldsArc && F.constsCloned && F.fnsCloned
-    && decide (F.freeSites = [FreeSite.wrapperDrop]) && goodOrders.contains F.moduleFields
+    && decide (F.freeSites = [FreeSite.wrapperDrop]) && goodOrders.contains (coreFields F.moduleFields)
     && F.closureKeepsArc && F.dataHolders.all Holder.heldByHandles && F.testHoldsHandle
 
 structure Good (F : Facts) : Prop where
@@ -86,7 +89,7 @@ structure Good (F : Facts) : Prop where
   consts : F.constsCloned = true
   fns : F.fnsCloned = true
   sites : F.freeSites = [FreeSite.wrapperDrop]
-  order : F.moduleFields ∈ goodOrders
+  order : coreFields F.moduleFields ∈ goodOrders
   closure : F.closureKeepsArc = true
   data : F.dataHolders.all Holder.heldByHandles = true
   test : F.testHoldsHandle = true
@@ -332,6 +335,14 @@ structure DropSpec (k : Nat) (s s' : St) : Prop where
       + (if (s.info k).keepConst = true ∧ s.constRc (s.info k).rt - 1 = 0 ∧ x = .regConst (s.info k).rt then 1 else 0)
       + (if (s.info k).keepClos = true ∧ s.closRc (s.info k).rt - 1 = 0 ∧ x = .closure (s.info k).rt then 1 else 0)
 
+/-- fields of plain data drop without any effect on the modelled state -/
+theorem dropFields_core (F : Facts) (k : Nat) : ∀ (fs : List Field) (s : St),
+    dropFields F k fs s = dropFields F k (coreFields fs) s
+  | [], _ => rfl
+  | f :: fs, s => by
+    cases f <;> simp [coreFields, dropFields, dropField] <;>
+      exact dropFields_core F k fs _
+
 theorem dropModule_spec {F : Facts} (hG : Good F) (k : Nat) (s : St) (hm : s.mapped k = true) :
     DropSpec k s (dropModule F k s) := by
   have hsites := hG.sites
@@ -340,6 +351,7 @@ theorem dropModule_spec {F : Facts} (hG : Good F) (k : Nat) (s : St) (hm : s.map
   have hw : FreeSite.wrapperDrop ∈ F.freeSites := by rw [hsites]; decide
   unfold dropModule
   simp only [hnm, if_false]
+  rw [dropFields_core]
   simp only [goodOrders, List.mem_cons, List.not_mem_nil, or_false] at hord
   cases hkc : (s.info k).keepConst <;> cases hkf : (s.info k).keepClos <;>
   rcases hord with h | h | h | h | h | h | h | h | h | h | h | h <;> rw [h] <;>
